@@ -473,6 +473,32 @@ def _(top):
     return [top.ctl0.bus, top.ctl1.bus, top.ctl.bus]
 
 
+@design("hier.related chains of depth 2 and 3 beside shorter chains with the same tail (explicit back-traces)")
+def _(top):
+    L = _lx()
+    Signal = L["Signal"]
+
+    def sig(width, path, related=None):
+        s = Signal(width, related=related, name=path[-1][0])
+        s.backtrace = list(path)
+        return s
+    T = ("top", 0)
+    i, o = sig(8, [T, ("i", 0)]), sig(8, [T, ("o", 0)])
+    data, x, y = sig(1, [T, ("data", 0)]), sig(1, [T, ("x", 0)]), sig(1, [T, ("x", 1)])
+    data_next = sig(1, [T, ("next", 1)], related=data)              # data <- next
+    x_data = sig(8, [T, ("data", 1)], related=x)                    # x <- data
+    x_data_next = sig(8, [T, ("next", 0)], related=x_data)          # x <- data <- next
+    x_x = sig(2, [T, ("x", 0)], related=x)                          # x <- x
+    x_x_x = sig(3, [T, ("x", 0)], related=x_x)                      # x <- x <- x
+    x_x_x_x = sig(4, [T, ("x", 0)], related=x_x_x)                  # x <- x <- x <- x
+    y_data = sig(5, [T, ("data", 0)], related=y)                    # the other x <- data
+    y_data_next = sig(6, [T, ("next", 0)], related=y_data)
+    top.comb += [data.eq(i[0]), x.eq(i[1]), y.eq(i[2]), x_data.eq(i + x), x_data_next.eq(x_data + 1), data_next.eq(data),
+                 x_x.eq(i[:2]), x_x_x.eq(x_x + 1), x_x_x_x.eq(x_x_x + y), y_data.eq(i[3:]), y_data_next.eq(y_data + 1),
+                 o.eq(x_data_next + data_next + x_x_x_x + y_data_next)]
+    return [i, o]
+
+
 @design("hier.memories (same name in repeated modules, all port modes, init) + MultiReg")
 def _(top):
     L = _lx()
@@ -765,6 +791,22 @@ def child_main(argv):
         doc["first_duid_after_dummies"] = Signal().duid
         # the same design built and converted again in the SAME process (its DUIDs and tracer counters moved on)
         doc["rebuilds"] = [convert_observed(name)["verilog"] for _ in range(times - 1)]
+        # DUID sweep: the design built again with its first DUID at every residue modulo `sweep` (dummy Signals fill the
+        # gap); only the distinct texts are returned, each with the first residue that produced it
+        sweep = int(argv[4]) if len(argv) > 4 else 0
+        if sweep:
+            import re
+            mask = lambda t: re.sub(r"(?m)^// Date       : .*$", "// <date>", re.sub(r"(?m)^//  Auto-Generated by LiteX on .*$", "// <date>", t))
+            from migen.fhdl.structure import DUID      # one identifier per object (a Signal takes two: itself and its reset Constant)
+            b0 = DUID().duid + 1
+            texts, residues = {}, set()
+            for k in range(sweep):
+                while (DUID().duid + 1 - b0) % sweep != k:
+                    pass
+                residues.add(DUID().duid % sweep)
+                t = convert_observed(name)["verilog"]
+                texts.setdefault(mask(t), (k, t))
+            doc["sweep"] = dict(residues=len(residues), distinct=[[k, t] for k, t in texts.values()])
         doc["ok"] = True
         del dummies
     except Exception:
